@@ -278,6 +278,138 @@ struct numeric_limits<char8_t> {
 };
 
 template <>
+struct numeric_limits<wchar_t> {
+    static constexpr bool is_specialized = true;
+
+    static constexpr auto min() noexcept -> wchar_t { return TETL_WCHAR_MIN; }
+    static constexpr auto max() noexcept -> wchar_t { return TETL_WCHAR_MAX; }
+    static constexpr auto lowest() noexcept -> wchar_t { return min(); }
+
+    static constexpr bool is_signed  = TETL_WCHAR_MIN < 0;
+    static constexpr bool is_integer = true;
+    static constexpr bool is_exact   = true;
+    static constexpr int radix       = 2;
+    static constexpr auto epsilon() noexcept -> wchar_t { return wchar_t{}; }
+    static constexpr auto round_error() noexcept -> wchar_t { return wchar_t{}; }
+
+    static constexpr int digits       = static_cast<int>(CHAR_BIT * sizeof(wchar_t) - static_cast<unsigned>(is_signed));
+    static constexpr int digits10     = digits * 3 / 10;
+    static constexpr int max_digits10 = 0;
+
+    static constexpr int min_exponent   = 0;
+    static constexpr int min_exponent10 = 0;
+    static constexpr int max_exponent   = 0;
+    static constexpr int max_exponent10 = 0;
+
+    static constexpr bool has_infinity             = false;
+    static constexpr bool has_quiet_NaN            = false; // NOLINT
+    static constexpr bool has_signaling_NaN        = false; // NOLINT
+    static constexpr bool has_denorm_loss          = false;
+    static constexpr float_denorm_style has_denorm = denorm_absent;
+
+    static constexpr auto infinity() noexcept -> wchar_t { return wchar_t{}; }
+    static constexpr auto quiet_NaN() noexcept -> wchar_t { return wchar_t{}; }     // NOLINT
+    static constexpr auto signaling_NaN() noexcept -> wchar_t { return wchar_t{}; } // NOLINT
+    static constexpr auto denorm_min() noexcept -> wchar_t { return wchar_t{}; }
+
+    static constexpr bool is_iec559  = false;
+    static constexpr bool is_bounded = true;
+    static constexpr bool is_modulo  = not is_signed;
+
+    static constexpr bool traps                    = true;
+    static constexpr bool tinyness_before          = false;
+    static constexpr float_round_style round_style = round_toward_zero;
+};
+
+template <>
+struct numeric_limits<char16_t> {
+    static constexpr bool is_specialized = true;
+
+    static constexpr auto min() noexcept -> char16_t { return 0; }
+    static constexpr auto max() noexcept -> char16_t { return static_cast<char16_t>(-1); }
+    static constexpr auto lowest() noexcept -> char16_t { return min(); }
+
+    static constexpr bool is_signed  = false;
+    static constexpr bool is_integer = true;
+    static constexpr bool is_exact   = true;
+    static constexpr int radix       = 2;
+    static constexpr auto epsilon() noexcept -> char16_t { return char16_t{}; }
+    static constexpr auto round_error() noexcept -> char16_t { return char16_t{}; }
+
+    static constexpr int digits       = static_cast<int>(CHAR_BIT * sizeof(char16_t) - static_cast<unsigned>(is_signed));
+    static constexpr int digits10     = digits * 3 / 10;
+    static constexpr int max_digits10 = 0;
+
+    static constexpr int min_exponent   = 0;
+    static constexpr int min_exponent10 = 0;
+    static constexpr int max_exponent   = 0;
+    static constexpr int max_exponent10 = 0;
+
+    static constexpr bool has_infinity             = false;
+    static constexpr bool has_quiet_NaN            = false; // NOLINT
+    static constexpr bool has_signaling_NaN        = false; // NOLINT
+    static constexpr bool has_denorm_loss          = false;
+    static constexpr float_denorm_style has_denorm = denorm_absent;
+
+    static constexpr auto infinity() noexcept -> char16_t { return char16_t{}; }
+    static constexpr auto quiet_NaN() noexcept -> char16_t { return char16_t{}; }     // NOLINT
+    static constexpr auto signaling_NaN() noexcept -> char16_t { return char16_t{}; } // NOLINT
+    static constexpr auto denorm_min() noexcept -> char16_t { return char16_t{}; }
+
+    static constexpr bool is_iec559  = false;
+    static constexpr bool is_bounded = true;
+    static constexpr bool is_modulo  = not is_signed;
+
+    static constexpr bool traps                    = true;
+    static constexpr bool tinyness_before          = false;
+    static constexpr float_round_style round_style = round_toward_zero;
+};
+
+template <>
+struct numeric_limits<char32_t> {
+    static constexpr bool is_specialized = true;
+
+    static constexpr auto min() noexcept -> char32_t { return 0; }
+    static constexpr auto max() noexcept -> char32_t { return static_cast<char32_t>(-1); }
+    static constexpr auto lowest() noexcept -> char32_t { return min(); }
+
+    static constexpr bool is_signed  = false;
+    static constexpr bool is_integer = true;
+    static constexpr bool is_exact   = true;
+    static constexpr int radix       = 2;
+    static constexpr auto epsilon() noexcept -> char32_t { return char32_t{}; }
+    static constexpr auto round_error() noexcept -> char32_t { return char32_t{}; }
+
+    static constexpr int digits       = static_cast<int>(CHAR_BIT * sizeof(char32_t) - static_cast<unsigned>(is_signed));
+    static constexpr int digits10     = digits * 3 / 10;
+    static constexpr int max_digits10 = 0;
+
+    static constexpr int min_exponent   = 0;
+    static constexpr int min_exponent10 = 0;
+    static constexpr int max_exponent   = 0;
+    static constexpr int max_exponent10 = 0;
+
+    static constexpr bool has_infinity             = false;
+    static constexpr bool has_quiet_NaN            = false; // NOLINT
+    static constexpr bool has_signaling_NaN        = false; // NOLINT
+    static constexpr bool has_denorm_loss          = false;
+    static constexpr float_denorm_style has_denorm = denorm_absent;
+
+    static constexpr auto infinity() noexcept -> char32_t { return char32_t{}; }
+    static constexpr auto quiet_NaN() noexcept -> char32_t { return char32_t{}; }     // NOLINT
+    static constexpr auto signaling_NaN() noexcept -> char32_t { return char32_t{}; } // NOLINT
+    static constexpr auto denorm_min() noexcept -> char32_t { return char32_t{}; }
+
+    static constexpr bool is_iec559  = false;
+    static constexpr bool is_bounded = true;
+    static constexpr bool is_modulo  = not is_signed;
+
+    static constexpr bool traps                    = true;
+    static constexpr bool tinyness_before          = false;
+    static constexpr float_round_style round_style = round_toward_zero;
+};
+
+template <>
 struct numeric_limits<short> {
     static constexpr bool is_specialized = true;
 
